@@ -356,12 +356,12 @@ def run(ctx, model_ok):
                 add(f"seq{nops}+postfix", fill(sh, ops, lv), ("min", "extra"))
                 if thorough and rng.random() < 0.15:
                     add(f"seq{nops}+postfix", fill(rng.choice(shapes(nops)), ops, lv), ("min", "extra"))
-    n4 = 20000 if thorough else 3000
+    n4 = 100000 if thorough else 3000
     for _ in range(n4):
         ops = tuple(rng.choice(OPS16) for _ in range(4))
         lv = [decorate(rng.choice(DECOS), l) if rng.random() < 0.2 else l for l in leaves]
         add("seq4-random", fill(rng.choice(shapes(4)), ops, lv), ("min", "extra"))
-    for _ in range(50000 if thorough else 6000):
+    for _ in range(150000 if thorough else 6000):
         add("random-tree", random_tree(rng, rng.randrange(2, 9)), ("min", "full", "extra"))
     ctx.cov["exhaustive"] = True
     srcs = [program(c[3]) for c in cases]
@@ -401,7 +401,7 @@ def run(ctx, model_ok):
     confirm_pairs(ctx, rng)
     # ---- leg B: model vs implementation, trees with positions
     if model_ok:
-        k = 40000 if thorough else 6000
+        k = 100000 if thorough else 6000
         pick = uniq if len(uniq) <= k else rng.sample(uniq, k)
         tie.front(ctx, "ast", pick, "trees", model_ok)
     for stream in ("seq2", "seq3", "seq2+postfix", "seq3+postfix", "seq4-random", "random-tree"):
